@@ -116,4 +116,11 @@ def unwrap (base : Fits) (chain : List Wrapper) : Except Err (Fits × List Bool)
       pure (F.resample (fillKept 1 droppedW f) (fillKept 0 droppedW o), dropped)
     | .unknown => .error .typeError
 
+/-- `unwrap_wcs_to_fitswcs` over any base: `none` stands for a base that is not a FITS WCS (a gWCS,
+any other low-level WCS) — refused with `TypeError` whatever wrappers lie above it, none included -/
+def unwrapAny (base : Option Fits) (chain : List Wrapper) : Except Err (Fits × List Bool) :=
+  match base with
+  | none => .error .typeError
+  | some F => unwrap F chain
+
 end Ndcube
